@@ -6,18 +6,25 @@ import subprocess
 
 V = os.path.dirname(os.path.dirname(os.path.abspath(__file__)))
 
-# id -> (engine, technique, level text, level note, design ref)
-CLAIMED = {
-    'C20': ('graph', 'TLA+ definitions (specs/graph/Graph.tla, specs/exact/Monomial.tla) evaluated by TLC over observations of the real methods',
-            'Every public CouplingGraph query, topology constructor, embedding test, PermutationMatrix.from_qudit_location and the '
-            'UnitaryMatrix/UnitaryBuilder tensor, power and apply operations are observed on the real code and recomputed by TLC from '
-            'textbook definitions written in TLA+: exhaustively for all labelled graphs on up to 5 vertices (6 sampled in thorough), '
-            'random weighted/remote-edge graphs up to 12 vertices, all location orders up to 4 qudits (5 thorough) with radix 2-4, '
-            'random monomial matrices for the algebra.',
-            'Trusted: TLC, the discretiser in harness/exact.py (argmax, phase class in units of 2*pi/48, 1e-7 tolerance), the observation '
-            'code in harness/checks/c20.py. Matrices in the algebra cases are monomial; generic complex matrices are not explored.',
-            'DESIGN.md section 4 / C20'),
-}
+import importlib
+import sys
+sys.path.insert(0, V)
+
+
+def claimed():
+    """Every harness/checks/cNN.py that defines MANIFEST_ENTRY = dict(engine, technique, text, note, ref) is claimed."""
+    out = {}
+    for i in range(1, 21):
+        pid = 'C%02d' % i
+        path = os.path.join(V, 'harness', 'checks', 'c%02d.py' % i)
+        if not os.path.exists(path):
+            continue
+        mod = importlib.import_module('harness.checks.c%02d' % i)
+        e = getattr(mod, 'MANIFEST_ENTRY', None)
+        if e:
+            out[pid] = (e['engine'], e['technique'], e['text'], e['note'], e['ref'], getattr(mod, 'LEVEL', 'model_checking'))
+    return out
+
 
 NOT_APPLICABLE = {}
 
@@ -34,10 +41,11 @@ def main():
         pass
     checks = []
     na = []
+    CLAIMED = claimed()
     for p in props:
         pid = p['id']
         if pid in CLAIMED:
-            eng, tech, text, note, ref = CLAIMED[pid]
+            eng, tech, text, note, ref, level = CLAIMED[pid]
             checks.append({
                 'property_id': pid,
                 'quick_cmd': './check %s --tier quick' % pid,
@@ -45,7 +53,7 @@ def main():
                 'evidence_file': 'evidence/%s.json' % pid,
                 'replay_cmd_template': './check %s --replay {path}' % pid,
                 'engine': eng,
-                'level_claimed': {'category': 'model_checking', 'text': text, 'design_ref': ref},
+                'level_claimed': {'category': level, 'text': text, 'design_ref': ref},
                 'level_note': note,
                 'technique': tech,
             })
